@@ -37,17 +37,23 @@ def full_compare(spec, view, rb, w, p=None, pvals=None, scale_div=None, tag=""):
     if not C.finite([a[1] for a in atoms], ph["tc"], [f]):
         return 0, viol, {"discarded": True}
     ref = model.RefModel(spec, ph, pvals)
+    rt = 1e-9
+    if spec["method"]["cls"] == "SS":
+        amp = ref.amplification()
+        if amp > 1e5:
+            return 0, viol, {"discarded": True, "why": "chaotic recursion (amplification %.2g)" % amp}
+        rt = max(1e-9, 1e-13 * amp)
     scale = max([1.0] + [float(np.max(np.abs(v))) for k, v in ph.items() if isinstance(v, np.ndarray) and v.size])
     n = 0
     fe = ref.objective()
     n += 1
-    if C.finite([fe]) and abs(f - fe) > 1e-9 * (1 + abs(f) + abs(fe)):
+    if C.finite([fe]) and abs(f - fe) > rt * (1 + abs(f) + abs(fe)):
         viol.append({"kind": "objective-mismatch", "mech": "objective-mismatch",
                      "detail": "%sNLP objective %.12g, reference %.12g" % (tag, f, fe)})
     dyn = ref.dyn_atoms()
     sys_eq = [(a[0], a[1]) for a in atoms if a[2] == -1 and a[0] == "eq"]
     if C.finite([v for _, v in dyn]):
-        un_e, _ = nlp.match_multiset(dyn, sys_eq, scale=scale, rtol=1e-9)
+        un_e, _ = nlp.match_multiset(dyn, sys_eq, scale=scale, rtol=rt)
         n += 1
         if un_e:
             viol.append({"kind": "dynamics-mismatch", "mech": "dynamics-mismatch",
@@ -59,7 +65,7 @@ def full_compare(spec, view, rb, w, p=None, pvals=None, scale_div=None, tag=""):
             continue
         obs = [(a[0], a[1]) for a in atoms if a[2] == c["cid"]]
         sc = max([scale] + [abs(v) for _, v in exp])
-        un_e, un_o = nlp.match_multiset(exp, obs, scale=sc, rtol=1e-9)
+        un_e, un_o = nlp.match_multiset(exp, obs, scale=sc, rtol=rt)
         n += 1
         if un_e or un_o:
             viol.append({"kind": "constraint-mismatch", "mech": "constraint-mismatch",
